@@ -45,7 +45,14 @@ def signature(prop, clause, case, discarded, err=None):
     return f"{prop}.{clause}"
 
 
-def run_case(case):
+def _exact_incircle(self, pt_index, simplex, transform):
+    from adaptive.learner import triangulation as T
+    center, radius = self.circumscribed_circle(simplex, transform)
+    pt = T.dot(self.get_vertices([pt_index]), transform)[0]
+    return T.norm(center - pt) < radius
+
+
+def run_case(case, shadow=False):
     warnings.simplefilter("ignore")
     fails = []
     box = {}
@@ -78,6 +85,21 @@ def run_case(case):
         err = {"type": type(e).__name__, "where": site, "msg": str(e)[:200], "op": "history", "chain": [site], "line": "",
                "discarded": False}
         return {"lines": [], "impl": [], "meta": case, "fails": [], "stats": {}, "err": err}
+    if fails and fails[0][0] == "sub_tiling" and not err and not shadow:
+        # which mechanism?  The same history with Triangulation.point_in_cicumcircle replaced by the test WITHOUT its relative 1e-8
+        # band on the radius (the recorded C03 finding: in an anisotropic metric circumradii are huge and the band decides): if the
+        # whole history then meets every clause, the band is the cause of THIS failure
+        from adaptive.learner import triangulation as T
+        orig = T.Triangulation.point_in_cicumcircle
+        T.Triangulation.point_in_cicumcircle = _exact_incircle
+        try:
+            sh = run_case(case, shadow=True)
+        finally:
+            T.Triangulation.point_in_cicumcircle = orig
+        if not sh["fails"] and not sh["err"]:
+            cl, det, disc = fails[0]
+            fails[0] = ("sub_tiling:incircle_decided_by_eps", det + "; the same history with the in-circle test without its relative 1e-8 "
+                        "band on the radius meets every clause", disc)
     st = dict(stats)
     o = box.get("o")
     if o and not fails and not err:
